@@ -485,21 +485,131 @@ void vf_harness()
                      {"fn": "DbLine::_serialize", "rx": r"getLineSampleCount\(iline\)\);", "rp": "getLineSampleCount(0));", "expect": r"assertion"}, bounded="at most 2 lines of 3 samples")
 
 
+
+def unit_model(tag, ndmax, nvmax, ncmax, nbmax):
+    extra = [(r"_recordRead\(is,\s*\"Flag for Anisotropy\",\s*", "VF_read_int(", "opt"),                 # the one call that leaves <T> to deduction
+             (r"_recordRead<String>\s*\(is,\s*\"[^\"]*\",\s*", "VF_read_str(", "opt"), (r"_recordWrite<String>\s*\(os,\s*\"[^\"]*\",\s*", "VF_write_str(", "opt"),
+             (r"DriftFactory::createDriftByIdentifier\(", "VF_createDrift(", "opt")]
+    fns = pair("Model", "src/Model/Model.cpp", True, extra=extra)
+    classes = """
+/* strings on the tape: a drift identifier is a ghost tag (DriftFactory::createDriftByIdentifier / ADrift::getDriftName trusted to be inverse of each other) */
+struct StringT { int tag; StringT() : tag(0) {} };
+#define String StringT
+static bool VF_write_str(const StringT& s) { return VF_put((double) s.tag, 3); }
+static bool VF_read_str(StringT& s) { double d; if (!VF_get(d, 3)) return false; s.tag = (int) d; return true; }
+bool __CPROVER_uninterpreted_hasparam(int);           /* does this covariance type have a third parameter (then scadef depends on it) */
+struct ECovV { int v; int getValue() const { return v; } };
+struct ECov { static int fromValue(int t) { return t; } };
+#define NVM 2
+class CovContext { public: int _nvar, _ndim; double _field; double _mean[NVM]; double _covar0[NVM][NVM];
+  CovContext() : _nvar(0), _ndim(0), _field(0.) {}
+  CovContext(int nvar, int ndim) : _nvar(nvar), _ndim(ndim), _field(0.) { for (int i = 0; i < NVM; i++) { _mean[i] = 0.; for (int j = 0; j < NVM; j++) _covar0[i][j] = 0.; } }
+  CovContext(const CovContext& o) { *this = o; }
+  CovContext& operator=(const CovContext& o) { _nvar = o._nvar; _ndim = o._ndim; _field = o._field; for (int i = 0; i < NVM; i++) { _mean[i] = o._mean[i]; for (int j = 0; j < NVM; j++) _covar0[i][j] = o._covar0[i][j]; } return *this; }
+  void setField(double f) { _field = f; } int getSpace() const { return _ndim; }
+  double getMean(int i) const { __CPROVER_assert(0 <= i && i < _nvar && i < NVM, "variable rank"); return _mean[i]; }
+  double getCovar0(int i, int j) const { __CPROVER_assert(0 <= i && i < _nvar && 0 <= j && j < _nvar && i < NVM && j < NVM, "variable ranks"); return _covar0[i][j]; } };
+double __CPROVER_uninterpreted_rmax(double, double);    /* isotropic-equivalent range and coefficients: floating-point, not compared */
+double __CPROVER_uninterpreted_coef(double, double);
+/* contract of CovAniso as the pair uses it (CovAniso.cpp): setParam installs the third parameter; setRanges / setRangeIsotropic convert ranges into
+   scales by dividing by scadef(type, param) and therefore need the parameter ALREADY installed; setAnisoRotation stores a column-major matrix */
+class CovAniso { public: int _type, _ndim; double _param; bool _paramSet, _flagAniso, _flagRot; double _rangeIso; VectorDouble _ranges, _rot;
+  CovAniso() : _type(0), _ndim(0), _param(1.), _paramSet(false), _flagAniso(false), _flagRot(false), _rangeIso(0.) {}
+  CovAniso(int type, const CovContext& c) : _type(type), _ndim(c._ndim), _param(1.), _paramSet(false), _flagAniso(false), _flagRot(false), _rangeIso(0.) {}
+  CovAniso(const CovAniso& o) { *this = o; }
+  CovAniso& operator=(const CovAniso& o) { _type = o._type; _ndim = o._ndim; _param = o._param; _paramSet = o._paramSet; _flagAniso = o._flagAniso; _flagRot = o._flagRot;
+    _rangeIso = o._rangeIso; _ranges = o._ranges; _rot = o._rot; return *this; }
+  void setParam(double p) { _param = p; _paramSet = true; }
+  void setRanges(const VectorDouble& r) { __CPROVER_assert(_paramSet || !__CPROVER_uninterpreted_hasparam(_type), "ranges are converted to scales (range / scadef(type, parameter)) with the third parameter already installed");
+    _ranges = r; _flagAniso = true; }
+  void setRangeIsotropic(double r) { __CPROVER_assert(_paramSet || !__CPROVER_uninterpreted_hasparam(_type), "the range is converted to a scale (range / scadef(type, parameter)) with the third parameter already installed");
+    _rangeIso = r; _flagAniso = false; }
+  void setAnisoRotation(const VectorDouble& rot) { _rot = rot; _flagRot = true; }
+  ECovV getType() const { ECovV e; e.v = _type; return e; }
+  double getParam() const { return _param; } bool getFlagAniso() const { return _flagAniso; } bool getFlagRotation() const { return _flagRot; }
+  double getRange() const { return _flagAniso ? __CPROVER_uninterpreted_rmax(_ranges.a[0], _ranges.a[1]) : _rangeIso; }
+  double getAnisoCoeffs(int i) const { return __CPROVER_uninterpreted_coef(_ranges[i], getRange()); }
+  double getAnisoRotMat(int i, int j) const { return _rot[j * _ndim + i]; } };
+struct ACovAnisoList { CovAniso a[2]; int n; ACovAnisoList() : n(0) {} ACovAnisoList(int space) : n(0) {}
+  void addCov(const CovAniso* c) { __CPROVER_assert(n < 2, "modelled capacity: two basic structures"); a[n] = *c; n = n + 1; } };
+struct ADrift { int tag; StringT getDriftName() const { StringT s; s.tag = tag; return s; } };
+static ADrift* VF_createDrift(const StringT& name) { ADrift* d = new ADrift(); d->tag = name.tag; return d; }
+struct DriftList { int tags[2]; int n; DriftList() : n(0) {} DriftList(const CovContext& c) : n(0) {}
+  void addDrift(const ADrift* d) { __CPROVER_assert(n < 2, "modelled capacity: two drift functions"); tags[n] = d->tag; n = n + 1; } };
+class Model { public: CovContext _ctxt; ACovAnisoList _covs; DriftList _drifts; ADrift _driftObj[2]; double _sill[2][NVM][NVM];
+  void _clear() {} void _create() {}
+  void setCovList(const ACovAnisoList* l) { _covs.n = l->n; _covs.a[0] = l->a[0]; _covs.a[1] = l->a[1]; }
+  void setDriftList(const DriftList* l) { _drifts.n = l->n; _drifts.tags[0] = l->tags[0]; _drifts.tags[1] = l->tags[1]; _driftObj[0].tag = l->tags[0]; _driftObj[1].tag = l->tags[1]; }
+  void setMean(double m, int ivar) { __CPROVER_assert(0 <= ivar && ivar < _ctxt._nvar && ivar < NVM, "variable rank"); _ctxt._mean[ivar] = m; }
+  void setSill(int icov, int i, int j, double v) { __CPROVER_assert(0 <= icov && icov < _covs.n && 0 <= i && i < _ctxt._nvar && 0 <= j && j < _ctxt._nvar && i < NVM && j < NVM, "structure and variable ranks"); _sill[icov][i][j] = v; }
+  void setCovar0(int i, int j, double v) { __CPROVER_assert(0 <= i && i < _ctxt._nvar && 0 <= j && j < _ctxt._nvar && i < NVM && j < NVM, "variable ranks"); _ctxt._covar0[i][j] = v; }
+  int getDimensionNumber() const { return _ctxt._ndim; } int getVariableNumber() const { return _ctxt._nvar; } double getField() const { return _ctxt._field; }
+  int getCovaNumber() const { return _covs.n; } int getDriftNumber() const { return _drifts.n; }
+  const CovAniso* getCova(int i) const { __CPROVER_assert(0 <= i && i < _covs.n, "structure rank"); return (CovAniso*) (_covs.a + i); }
+  const ADrift* getDrift(int i) const { __CPROVER_assert(0 <= i && i < _drifts.n, "drift rank"); return (ADrift*) (_driftObj + i); }
+  const CovContext& getContext() const { CovContext* q = (CovContext*) &_ctxt; return *q; }
+  double getSill(int icov, int i, int j) const { __CPROVER_assert(0 <= icov && icov < _covs.n && 0 <= i && i < _ctxt._nvar && 0 <= j && j < _ctxt._nvar, "structure and variable ranks"); return _sill[icov][i][j]; }
+  bool _serialize(std::ostream& os, bool verbose) const; bool _deserialize(std::istream& is, bool verbose); };
+"""
+    h = """
+void vf_harness()
+{
+  Model a; int nd = nondet_int(), nv = nondet_int(), nc = nondet_int(), nb = nondet_int();
+  __CPROVER_assume(1 <= nd && nd <= NDMAX && 1 <= nv && nv <= NVMAX && 0 <= nc && nc <= NCMAX && 0 <= nb && nb <= NBMAX);
+  a._ctxt._ndim = nd; a._ctxt._nvar = nv; a._ctxt._field = nondet_double(); a._covs.n = nc; a._drifts.n = nb;
+  for (int i = 0; i < 2; i++) { a._ctxt._mean[i] = nondet_double(); a._drifts.tags[i] = nondet_int(); a._driftObj[i].tag = a._drifts.tags[i]; for (int j = 0; j < 2; j++) a._ctxt._covar0[i][j] = nondet_double(); }
+  for (int k = 0; k < 2; k++) { CovAniso& c = a._covs.a[k]; c._type = nondet_int(); c._ndim = nd; c._param = nondet_double(); c._paramSet = true; c._flagAniso = nondet_bool(); c._flagRot = c._flagAniso && nondet_bool();
+    c._rangeIso = nondet_double(); c._ranges.n = nd; c._rot.n = nd * nd; for (int i = 0; i < VCAP; i++) { c._ranges.a[i] = nondet_double(); c._rot.a[i] = nondet_double(); }
+    for (int i = 0; i < 2; i++) for (int j = 0; j < 2; j++) a._sill[k][i][j] = nondet_double(); }
+  TAPE_RESET(); std::ostream os; std::istream is;
+  __CPROVER_assert(a._serialize(os, false), "writing succeeds");
+  Model b;
+  __CPROVER_assert(b._deserialize(is, false), "what was written can be read back");
+  __CPROVER_assert(TAPE_CONSUMED(), "the reader consumes exactly the records written, with the same types");
+  __CPROVER_assert(b._ctxt._ndim == nd && b._ctxt._nvar == nv && SAME(b._ctxt._field, a._ctxt._field) && b._covs.n == nc && b._drifts.n == nb, "dimension, variable count, field, structure and drift counts are restored");
+  for (int k = 0; k < 2; k++) if (k < nc && k < b._covs.n) { const CovAniso& c = a._covs.a[k]; const CovAniso& d = b._covs.a[k];
+    __CPROVER_assert(d._type == c._type && SAME(d._param, c._param), "type and third parameter of every basic structure are restored");
+    __CPROVER_assert(d._flagAniso == c._flagAniso && d._flagRot == c._flagRot, "anisotropy and rotation flags are restored");
+    if (c._flagRot && d._flagRot) for (int i = 0; i < VCAP; i++) if (i < nd * nd && d._rot.n == nd * nd) __CPROVER_assert(SAME(d._rot.a[i], c._rot.a[i]), "every entry of the rotation matrix returns to its own row and column");
+    if (!c._flagAniso) __CPROVER_assert(SAME(d._rangeIso, c._rangeIso), "the isotropic range is restored");
+    for (int i = 0; i < 2; i++) for (int j = 0; j < 2; j++) if (i < nv && j < nv) __CPROVER_assert(SAME(b._sill[k][i][j], a._sill[k][i][j]), "every sill returns to its own structure and variable pair"); }
+  for (int i = 0; i < 2; i++) if (i < nb && i < b._drifts.n) __CPROVER_assert(b._drifts.tags[i] == a._drifts.tags[i], "the drift functions are restored in order");
+  if (nb == 0) for (int i = 0; i < 2; i++) if (i < nv) __CPROVER_assert(SAME(b._ctxt._mean[i], a._ctxt._mean[i]), "without drift the means are restored");
+  for (int i = 0; i < 2; i++) for (int j = 0; j < 2; j++) if (i < nv && j < nv) __CPROVER_assert(SAME(b._ctxt._covar0[i][j], a._ctxt._covar0[i][j]), "the variance-covariance at the origin is restored");
+  VF_REACH();
+}
+"""
+    return tape_unit("Model." + tag, fns, classes, h,
+                     ("Model: 1-%d dimensions, 1-%d variables, 0-%d basic structures (any type / parameter / anisotropy / rotation), 0-%d drift functions: the record sequence " % (ndmax, nvmax, ncmax, nbmax)) +
+                     "pairs, counts, field, every structure's type, third parameter, flags, rotation matrix entries (row/column), isotropic range, sills, drift "
+                     "functions, means and covariance at the origin are restored, and the third parameter is installed BEFORE the ranges are converted to scales. "
+                     "Anisotropic ranges (coefficient x range, floating point) are not compared",
+                     {"fn": "Model::_serialize", "rx": r"cova->getParam\(\)", "rp": "cova->getRange()", "expect": r"assertion"},
+                     bounded="at most %d dimensions, %d variables, %d structures, %d drift functions" % (ndmax, nvmax, ncmax, nbmax), unwind=max(ndmax * ndmax, 2) + 2, timeout=1200,
+                     defines="#define TAPE_MAX %d\n#define VCAP %d\n#define NDMAX %d\n#define NVMAX %d\n#define NCMAX %d\n#define NBMAX %d\n" % (
+                         8 + ncmax * (6 + ndmax + ndmax * ndmax) + nbmax + nvmax + ncmax * nvmax * nvmax + nvmax * nvmax, max(ndmax * ndmax, 2), ndmax, nvmax, ncmax, nbmax))
+
+
 def units(tier):
-    return [unit_dbgrid(), unit_dbline(), unit_fracenviron(), unit_neighmoving(), unit_neighbench(), unit_neighimage(), unit_neighcell(), unit_polygons(), unit_faults(), unit_table(), unit_anamhermite()]
+    return ([unit_model("one_structure", 2, 2, 1, 1), unit_model("rotation", 2, 1, 1, 0)] if tier != "quick" else []) + [unit_model("two_structures", 1, 1, 2, 2), unit_dbgrid(), unit_dbline(), unit_fracenviron(), unit_neighmoving(), unit_neighbench(), unit_neighimage(), unit_neighcell(), unit_polygons(), unit_faults(), unit_table(), unit_anamhermite()]
 
 
 META = {
     "level": "other",
-    "explanation": "Bounded pairing proof of one serialisable class family on a ghost tape; text formatting and all other classes are not covered.",
-    "trusted_base": ["CBMC 6.11 C++ front end", "stub of BiTargetCheckDistance and of the record readers/writers"],
+    "explanation": ("Bounded pairing proofs of _serialize/_deserialize on a ghost tape of typed records for nine class families; text formatting and the "
+                    "remaining classes are not covered."),
+    "trusted_base": ["CBMC 6.11 C++ front end", "stub class declarations mirroring the headers (members, trivial accessors)", "ghost tape of typed records (stubs/tape_stub.hpp)",
+                     "contract stubs: BiTargetCheckDistance/Bench, CovAniso (typestate: parameter before ranges), gridDefine, Db table part as a sentinel record"],
     "assumptions": [],
-    "not_covered": ["Db, DbGrid, Model, Vario, Polygons, anamorphoses, meshes, tables, rules, faults, fractures", "text formatting (15 digits, NA token)",
-                    "grid exchange formats", "re-writing the reloaded object gives the same file (follows from equality of the defining fields for this class only)"],
+    "not_covered": ["Db / DbGraphO / DbMesh table parts, Vario (lossy format: calculation type, bench, cylinder radius, breaks, dates not written; undefined lags written as 0), "
+                    "meshes, rules, discrete / empirical anamorphoses", "text formatting (15 digits, NA token, comments, line structure)", "grid exchange formats",
+                    "anisotropic ranges of a Model (coefficient x range in floating point)",
+                    "re-writing the reloaded object gives the same file (follows from equality of the defining members for the covered classes only)"],
 }
 MANIFEST = {
     "category": "other",
-    "text": "Partial: _serialize/_deserialize pairing of NeighMoving (+ANeigh) on a ghost tape, all option combinations, space dimension <= 2.",
-    "note": "One class family only; formatting N/A.",
+    "text": ("Partial, bounded: _serialize/_deserialize pairing on a ghost tape of typed records for NeighMoving/Bench/Image/Cell, Polygons, Faults, Table, AnamHermite, "
+             "FracEnviron, DbGrid header, DbLine organisation and Model (all option combinations, small sizes): same record sequence both ways, every defining member restored."),
+    "note": "Text formatting and the other classes N/A; sizes bounded (stated per unit).",
     "design_ref": "DESIGN.md 3 C08",
 }
